@@ -58,6 +58,10 @@ var c20Templates = []struct{ name, code string }{
 	{"defer", "r = \"ok\"; try { func() { defer %s(1) }() } catch e { r = \"E\" }"},
 	{"member-K", "r = (%s.K) ?? \"E\""}, {"addr-member", "t = %s; p = &t; r = (p.k) ?? \"E\""}, {"addr-member-K", "t = %s; p = &t; r = (p.K) ?? \"E\""},
 	{"addr-deref", "t = %s; p = &t; r = (*p == t) ?? \"E\""},
+	// a store through the address of a variable: whether it reaches the variable does not depend on where the variable's value came from
+	{"addr-store", "t = %s; p = &t; r = \"ok\"; try { *p = 7; r = [t] } catch e { r = \"E\" }"},
+	{"addr-store-param", "r = func(t) { p = &t; *p = 7; return [t] }(%s) ?? \"E\""},
+	{"addr-store-var", "var t = %s; p = &t; r = \"ok\"; try { *p = 7; r = [t] } catch e { r = \"E\" }"},
 	// a field (or entry) assigned through a variable, and through a pointer to the variable, wherever the value came from
 	// a character (or more) stored into a string held by a variable: the same new string whether the variable's string sits in an
 	// addressable cell (read from a typed slot) or not
@@ -152,6 +156,8 @@ var c20TypedNils = []struct{ name, lit string }{
 	{"nilfunc", "make(struct { A func(int64) int64 }).A"}, {"niliface", "make(struct { A interface }).A"},
 	{"typedzero", "make(struct { A int32 }).A"}, {"emptystruct", "make(struct { A struct { B int64 } }).A"}, {"structval", "make(struct { K int64, L []int64 })"},
 	// strings that sit in an addressable cell: read from a typed slice element / a struct field
+	{"typedint", "func() { a = make([]int64, 1); a[0] = 5; return a[0] }()"}, {"typedbool", "func() { a = make([]bool, 1); a[0] = true; return a[0] }()"},
+	{"typedslice", "func() { a = make([][]int64, 1); a[0] = [1, 2]; return a[0] }()"}, {"typedmap", "func() { s = make(struct { M map[string]int64 }); s.M = {\"k\": 1}; return s.M }()"},
 	{"typedstr", "func() { a = make([]string, 1); a[0] = \"abc\"; return a[0] }()"}, {"fieldstr", "func() { s = make(struct { S string }); s.S = \"abc\"; return s.S }()"},
 }
 
